@@ -1,4 +1,6 @@
 import CssVerif.Lemmas.Profiles
+import CssVerif.Lemmas.MacroRank
+import CssVerif.Gen.C14Profiles
 /-!
 # C14 — the profile registry's verdicts depend on its contents, not its history
 
@@ -87,9 +89,9 @@ theorem rejected_unchanged (cfg : Cfg) (r : Reg) (op : Op) (e : Exc) (h : (step 
     (step cfg r op).1 = r :=
   step_fail cfg r op e h
 
-/-- the bound on the expansion loop is no part of any result: a definition that expands with some fuel expands to
-the same text with any larger fuel -/
-theorem fuel_irrelevant (m : Dict Str) (f g : Nat) (v r : Str) (hfg : f ≤ g)
+/-- a definition that expands with some fuel expands to the same text with any larger fuel (see `fuel_irrelevant`
+in T14.6 for the statement without the premise "expands") -/
+theorem fuel_irrelevant_finished (m : Dict Str) (f g : Nat) (v r : Str) (hfg : f ≤ g)
     (h : expandValue m f v = .ok r) : expandValue m g v = .ok r :=
   expandValue_fuel_mono m f g v r hfg h
 
@@ -213,6 +215,120 @@ theorem remove_rejected_unchanged (cfg : Cfg) (r : Reg) (q : Option Str) (e : Ex
     (h : (removeProfile cfg r q).2 = some e) : (removeProfile cfg r q).1 = r :=
   removeProfile_fail cfg r q e h
 
+/-! ## T14.6 the macro expansion ends for macro sets without a cycle
+
+`_expand_macros` repeats `re.sub` while `re.search` finds a placeholder (`profiles.py:190`), without a bound; the
+model's loop has a fuel. `RankedBy rk m`: every macro used by the body of a defined macro has a lower rank;
+`Acyclic m`: some rank function exists; `depth rk v`: one more than the highest rank among the placeholders of `v`. -/
+
+/-- one `re.sub` pass: the placeholders of the result are exactly the placeholders of the substituted bodies, in
+order — the wrapping `(?:…)` keeps the surrounding text from fusing with a body into a new placeholder -/
+theorem pass_placeholders (m : Dict Str) (v r : Str) (h : subPass m v = .ok r) :
+    phNames r = (phNames v).flatMap (bodyPhs m) :=
+  subPass_phNames m v r h
+
+/-- every pass lowers the depth -/
+theorem pass_lowers_depth (rk : Str → Nat) (m : Dict Str) (hr : RankedBy rk m) (v r : Str)
+    (h : subPass m v = .ok r) (hp : hasPh v = true) : depth rk r < depth rk v :=
+  subPass_depth rk m hr v r h hp
+
+/-- **termination**: for a ranked macro set the loop ends within `depth rk v` passes — with a text or with the
+`KeyError` of an undefined macro; the fuel does not run out. For EVERY value, defined macros or not. -/
+theorem expand_terminates (rk : Str → Nat) (m : Dict Str) (hr : RankedBy rk m) (f : Nat) (v : Str)
+    (hf : depth rk v ≤ f) : expandValue m f v ≠ .error .diverges :=
+  expandValue_terminates rk m hr f v hf
+
+/-- the number of passes (`re.sub` calls) is at most the depth -/
+theorem passes_bounded (rk : Str → Nat) (m : Dict Str) (hr : RankedBy rk m) (f : Nat) (v : Str) (n : Nat)
+    (h : passCount m f v = .ok n) : n ≤ depth rk v :=
+  passCount_le_depth rk m hr f v n h
+
+/-- the bound on the loop is no part of any result — for a macro set without a cycle (this replaces the premise
+"the expansion has finished" of the earlier `fuel_irrelevant`): from some fuel on, every fuel gives the same
+answer, and the answer is not "still running" -/
+theorem fuel_irrelevant (m : Dict Str) (hac : Acyclic m) (v : Str) :
+    ∃ N, ∀ f, N ≤ f → expandValue m f v = expandValue m N v ∧ expandValue m N v ≠ .error .diverges := by
+  obtain ⟨rk, hr⟩ := hac
+  have hN := expandValue_terminates rk m hr (depth rk v) v (Nat.le_refl _)
+  exact ⟨depth rk v, fun f hf => ⟨expandValue_stable m _ f v hf hN, hN⟩⟩
+
+/-- in general: whenever the loop has ended (text or `KeyError`), more fuel changes nothing -/
+theorem fuel_irrelevant_ended (m : Dict Str) (f g : Nat) (v : Str) (hfg : f ≤ g)
+    (h : expandValue m f v ≠ .error .diverges) : expandValue m g v = expandValue m f v :=
+  expandValue_stable m f g v hfg h
+
+/-- **totality**: ranked, and no undefined macro in the value or in any body — the expansion returns a text, and
+the text has no placeholder left -/
+theorem expand_total (rk : Str → Nat) (m : Dict Str) (hr : RankedBy rk m) (hc : Closed m) (f : Nat) (v : Str)
+    (hf : depth rk v ≤ f) (hd : ∀ n ∈ phNames v, (dget m n).isSome) :
+    ∃ r, expandValue m f v = .ok r ∧ hasPh r = false :=
+  expandValue_total rk m hr hc f v hf hd
+
+/-- the executable cycle check is sound, and gives a bound that does not depend on the value: a macro set that
+passes it is acyclic, and `|m| + 1` passes are enough for every value -/
+theorem acyclic_check_sound (m : Dict Str) (h : acyclicB m = true) :
+    Acyclic m ∧ ∀ f, m.length + 1 ≤ f → ∀ v, expandValue m f v ≠ .error .diverges :=
+  ⟨acyclicB_acyclic m h, fun f hf v => acyclicB_terminates m h f hf v⟩
+
+/-- what makes `Profiles()` go through, for ANY tables: distinct names; the macro set (base macros updated with the
+macros of all tables) passes the cycle check and is closed; no property uses an undefined macro; the fuel exceeds
+the number of macros -/
+theorem init_goes_through (cfg : Cfg) (l : List ProfileDef) (hnd : (l.map (·.name)).Nodup)
+    (hac : acyclicB (bulkEnv cfg.base l) = true) (hcl : closedB (bulkEnv cfg.base l) = true)
+    (hpc : ∀ d ∈ l, propsClosedB (bulkEnv cfg.base l) d.props = true)
+    (hf : (bulkEnv cfg.base l).length + 1 ≤ cfg.fuel) : (init cfg l).2 = none :=
+  init_ok_of_checks cfg l hnd hac hcl hpc hf
+
+/-! ### the built-in tables (`Gen/C14Profiles.lean`, regenerated from `cssutils/profiles.py` on every run)
+
+Evaluated by the kernel on the regenerated tables, in pieces: a cycle among the built-in macros, an undefined macro
+in a built-in body or property, or a repeated profile name in `__init__` breaks the build. -/
+
+/-- the macro environment of `Profiles()` is the literal table the translator computed with Python dicts -/
+theorem builtin_env : bulkEnv Gen.C14.base Gen.C14.builtins = Gen.C14.envLit := by decide +kernel
+
+set_option maxRecDepth 100000 in
+/-- the built-in macros (token macros, general macros, the macros of the nine profiles) have no cycle -/
+theorem builtin_acyclic : acyclicB Gen.C14.envLit = true := by decide +kernel
+
+set_option maxRecDepth 100000 in
+/-- every macro used by a built-in macro is defined -/
+theorem builtin_closed : closedB Gen.C14.envLit = true := by decide +kernel
+
+set_option maxRecDepth 100000 in
+/-- every macro used by a built-in property is defined -/
+theorem builtin_props_closed : Gen.C14.builtins.all (fun d => propsClosedB Gen.C14.envLit d.props) = true := by
+  decide +kernel
+
+theorem builtin_names_nodup : (Gen.C14.builtins.map (·.name)).Nodup := by decide +kernel
+
+theorem builtin_fuel : Gen.C14.envLit.length + 1 ≤ Gen.C14.cfg.fuel := by decide +kernel
+
+/-- **`Profiles()` does not raise and does not hang** (the registry the driver starts from) -/
+theorem builtin_init_ok : (init Gen.C14.cfg Gen.C14.builtins).2 = none := by
+  apply init_ok_of_checks Gen.C14.cfg Gen.C14.builtins builtin_names_nodup
+  · show acyclicB (bulkEnv Gen.C14.base Gen.C14.builtins) = true
+    rw [builtin_env]; exact builtin_acyclic
+  · show closedB (bulkEnv Gen.C14.base Gen.C14.builtins) = true
+    rw [builtin_env]; exact builtin_closed
+  · intro d hd
+    show propsClosedB (bulkEnv Gen.C14.base Gen.C14.builtins) d.props = true
+    rw [builtin_env]
+    exact List.all_eq_true.mp builtin_props_closed d hd
+  · show (bulkEnv Gen.C14.base Gen.C14.builtins).length + 1 ≤ Gen.C14.cfg.fuel
+    rw [builtin_env]; exact builtin_fuel
+
+/-- and registers exactly the nine tables, in order (`init_contents` with its premises discharged) -/
+theorem builtin_init_contents :
+    contents (init Gen.C14.cfg Gen.C14.builtins).1
+      = Gen.C14.builtins.map (fun d => { name := d.name, props := d.props, macros := dm d }) :=
+  init_contents Gen.C14.cfg Gen.C14.builtins builtin_names_nodup builtin_init_ok
+
+/-- with the built-in macros, no value at all makes the expansion loop run on: 93 passes are enough -/
+theorem builtin_never_diverges (v : Str) (f : Nat) (hf : Gen.C14.envLit.length + 1 ≤ f) :
+    expandValue Gen.C14.envLit f v ≠ .error .diverges :=
+  acyclicB_terminates Gen.C14.envLit builtin_acyclic f hf v
+
 /-! ## the histories that exposed the four repaired defects, re-checked on the model of the repaired code
 
 A tiny configuration: one base macro `c ↦ "r"`. Names `A B X U` = `[65] [66] [88] [85]`, property `x` = `[120]`,
@@ -279,5 +395,24 @@ example : QuietRun wcfg (empty wcfg)
     QuietRun wcfg (empty wcfg) [.add [66] xc none] := by
   refine ⟨⟨Or.inl (by decide), trivial, Or.inl (by decide), trivial, Or.inl (by decide), trivial, trivial⟩,
     Or.inl (by decide), trivial, trivial⟩
+
+/-- non-vacuity of `RankedBy` / `Closed` / the premises of `expand_total`: macros `a ↦ "{b}x"`, `b ↦ "y"`, the value
+`{a}{b}`; and the check tells a cycle (`a ↦ "{b}"`, `b ↦ "{a}"`) from none -/
+example : acyclicB [([97], [123, 98, 125, 120]), ([98], [121])] = true ∧
+    closedB [([97], [123, 98, 125, 120]), ([98], [121])] = true ∧
+    depth (rankFn [([97], [123, 98, 125, 120]), ([98], [121])]) [123, 97, 125, 123, 98, 125] = 2 ∧
+    expandValue [([97], [123, 98, 125, 120]), ([98], [121])] 2 [123, 97, 125, 123, 98, 125]
+      = .ok [40, 63, 58, 40, 63, 58, 121, 41, 120, 41, 40, 63, 58, 121, 41] ∧
+    passCount [([97], [123, 98, 125, 120]), ([98], [121])] 5 [123, 97, 125, 123, 98, 125] = .ok 2 ∧
+    acyclicB [([97], [123, 98, 125]), ([98], [123, 97, 125])] = false :=
+  ⟨by decide, by decide, by decide, rfl, rfl, by decide⟩
+
+example : RankedBy (rankFn [([97], [123, 98, 125, 120]), ([98], [121])]) [([97], [123, 98, 125, 120]), ([98], [121])] :=
+  acyclicB_ranked _ (by decide)
+
+/-- `pass_placeholders` / `pass_lowers_depth` have instances: one pass over `{a}` under the macros above -/
+example : subPass [([97], [123, 98, 125, 120]), ([98], [121])] [123, 97, 125] = .ok [40, 63, 58, 123, 98, 125, 120, 41] ∧
+    hasPh [123, 97, 125] = true :=
+  ⟨rfl, by decide⟩
 
 end CssVerif.C14
